@@ -93,6 +93,18 @@ def project_list(tier):
         for nj in (3, 4):
             out.append((f"resdet:{kind}j{nj}", ("f_resdetached", {"kind": kind}),
                         {"njob": nj, "resources": "gpu:1", "keep_going": True}, None))
+    # steps with a stored hash whose outputs were deleted by the user: the re-check reaches them
+    # through the scheduler's bypasses (no resource test, open hold ignored), so it must not run
+    # anything itself
+    for nj in (3, 4):
+        out.append((f"lostout:res:j{nj}", ("f_resmix", {"demands": ("cpu:1", "cpu:1", "cpu:1")}),
+                    {"njob": nj, "resources": "cpu:1"}, ("f_resmix", {"demands": ("cpu:1", "cpu:1", "cpu:1")}),
+                    "outputs"))
+        out.append((f"lostout:undef:j{nj}", ("f_resmix", {"demands": ("q:1", "cpu:1")}),
+                    {"njob": nj, "resources": "cpu:1"}, ("f_resmix", {"demands": ("q:1", "cpu:1")}),
+                    "outputs", {"resources": "cpu:1,q:1"}))
+        out.append((f"lostout:hold:j{nj}", ("f_hold", {"nesting": 2, "v": 2}),
+                    {"njob": nj, "resources": None}, ("f_hold", {"nesting": 2, "v": 1}), "outputs"))
     # a held step with a stored hash: first build v=1 without hold semantics mattering,
     # then the plan changes (v=2) and reruns with the same step definitions under hold
     for nj in (2, 3):
@@ -108,9 +120,18 @@ def _run(spec, prefix):
     cfg["on_start"] = monitor(cfg.get("resources"), cfg["njob"])
     cfg["exit_gate"] = True
     if first:
-        session(w, dict(cfg), ())
+        cfg1 = dict(cfg)
+        cfg1.update(spec.get("first_cfg") or {})
+        cfg1["on_start"] = monitor(cfg1.get("resources"), cfg1["njob"])
+        o1 = session(w, cfg1, ())
         fam, knobs = proj
         w.materialize(getattr(projects, fam)(**knobs))
+        if spec.get("lose") == "outputs":
+            # the user deletes every output of the first build
+            for outs in o1.db_outputs.values():
+                for p in outs:
+                    if w.exists(p):
+                        w.remove(p)
     obs = session(w, cfg, prefix)
     w.destroy()
     return obs
@@ -119,11 +140,14 @@ def _run(spec, prefix):
 def jobs(tier, seed):
     out = []
     bound = 1 if tier == "quick" else 2
-    for (name, proj, cfg, first), policy in itertools.product(project_list(tier), POLICIES):
+    for entry, policy in itertools.product(project_list(tier), POLICIES):
         # two base schedules: non-preemptive and oldest-event-first (maximal overlap)
+        name, proj, cfg, first = entry[:4]
         name = f"{name}/{policy}"
         cfg = {**cfg, "policy": policy}
-        spec = {"name": name, "proj": proj, "cfg": cfg, "first": first, "bound": bound}
+        spec = {"name": name, "proj": proj, "cfg": cfg, "first": first, "bound": bound,
+                "lose": entry[4] if len(entry) > 4 else None,
+                "first_cfg": entry[5] if len(entry) > 5 else None}
         if tier == "quick":
             out.append({**spec, "root": [], "only_root": False})
         else:
